@@ -50,7 +50,7 @@ def run(run):
     rng = np.random.default_rng(run.seed)
     quick = run.tier == 'quick'
     fx = inputs.fixture_sgz()
-    keep = ('padding_6x7', 'small-2d', 'small-irregular', 'small_2bit-64x64', 'small_8bit-8x8', 'small_8bit.', 'small_4bit', 'small_v0.0.1') if quick else \
+    keep = ('padding_6x7', 'small-2d', 'small_hole', 'small_2bit-64x64', 'small_8bit-8x8', 'small_8bit.', 'small_4bit', 'small_v0.0.1') if quick else \
         ('padding_6x7', 'padding_8x5', 'small-2d', 'small-irregular', 'small_2bit-64x64', 'small_8bit-8x8', 'small_8bit.', 'small_4bit',
          'small_hole', 'small_05bit', 'small-dec', 'small_v0.0.1', 'small_1bit')
     fx = [f for f in fx if any(k in f for k in keep)]
@@ -157,7 +157,7 @@ def run(run):
                 r.close()
     accessor_slices(run, cases)
     warm_diagonals(run, cases)
-    header_histories(run, [c for c in cases if any(k in c.label for k in ('small_8bit.', 'small-irregular', 'small-2d', 'padding_6x7')) or c.label.startswith('numpy(9, 10, 70)')])
+    header_histories(run, [c for c in cases if any(k in c.label for k in ('small_8bit.', 'small-irregular', 'small_hole', 'small-2d', 'padding_6x7')) or c.label.startswith('numpy(9, 10, 70)')])
 
 
 def accessor_slices(run, cases):
